@@ -1239,4 +1239,235 @@ theorem hops_replay (P : Problem S U α ρ) (starts : List S) (ms : Array (PMoti
             exact ⟨hst.symm, hval, trivial⟩
           · rw [endState_append, r5']; rfl
 
+/-! ## the index arithmetic of `assemble` -/
+
+/-- the segment `assemble` builds for index `i` of `(mpath, durs)` -/
+def segAt (ms : Array (PMotion S U α)) (M D : List Nat) (i : Nat) : Option (S × U × Nat) :=
+  match M[i - 1]? >>= (ms[·]?), M[i]? >>= (ms[·]?), D[i]? with
+  | some a, some b, some d => b.control.map fun u => (a.start, u, d)
+  | _, _, _ => none
+
+theorem filter_mid : ∀ (m b : Nat), (List.range m).filter (fun i => decide (0 < i) && decide (i + 1 < b)) =
+    List.range' 1 (min m (b - 1) - 1) := by
+  intro m
+  induction m with
+  | zero => intro b; simp
+  | succ m ih =>
+    intro b
+    rw [List.range_succ, List.filter_append, ih b]
+    by_cases hc : 0 < m ∧ m + 1 < b
+    · have : List.filter (fun i => decide (0 < i) && decide (i + 1 < b)) [m] = [m] := by simp [hc.1, hc.2]
+      rw [this]
+      have e1 : min m (b - 1) - 1 = m - 1 := by omega
+      have e2 : min (m + 1) (b - 1) - 1 = (m - 1) + 1 := by omega
+      rw [e1, e2, List.range'_concat]
+      congr 2; omega
+    · have : List.filter (fun i => decide (0 < i) && decide (i + 1 < b)) [m] = [] := by
+        simp only [List.filter_cons, List.filter_nil]
+        have : (decide (0 < m) && decide (m + 1 < b)) = false := by
+          simp only [Bool.and_eq_false_iff, decide_eq_false_iff_not]
+          by_cases h0 : 0 < m
+          · exact Or.inr (fun h => hc ⟨h0, h⟩)
+          · exact Or.inl h0
+        rw [this]; rfl
+      rw [this, List.append_nil]
+      congr 1; omega
+
+theorem segAt_shift (ms : Array (PMotion S U α)) (x y : Nat) (M D : List Nat) (i : Nat) (hi : 1 ≤ i) :
+    segAt ms (x :: M) (y :: D) (i + 1) = segAt ms M D i := by
+  obtain ⟨j, rfl⟩ : ∃ j, i = j + 1 := ⟨i - 1, by omega⟩
+  simp [segAt]
+
+theorem segAt_one (ms : Array (PMotion S U α)) (a0 a1 d0 d1 : Nat) (M D : List Nat) :
+    segAt ms (a0 :: a1 :: M) (d0 :: d1 :: D) 1 = hop ms a0 a1 d1 := by
+  simp only [segAt, hop, Nat.sub_self, List.getElem?_cons_zero, List.getElem?_cons_succ, Option.bind_eq_bind,
+    Option.bind_some]
+  cases ms[a0]? <;> cases ms[a1]? <;> rfl
+
+theorem range'_shift : ∀ (n s : Nat), List.range' (s + 1) n = (List.range' s n).map (· + 1) := by
+  intro n
+  induction n with
+  | zero => intro s; rfl
+  | succ n ih => intro s; simp only [List.range'_succ, List.map_cons, ih (s + 1)]
+
+theorem filterMap_congr' {β γ : Type} (f g : β → Option γ) : ∀ (l : List β), (∀ x ∈ l, f x = g x) →
+    l.filterMap f = l.filterMap g := by
+  intro l
+  induction l with
+  | nil => intro _; rfl
+  | cons x l ih =>
+    intro h
+    rw [List.filterMap_cons, List.filterMap_cons, h x (List.mem_cons_self ..),
+      ih (fun y hy => h y (List.mem_cons_of_mem _ hy))]
+
+theorem midL_eq (ms : Array (PMotion S U α)) :
+    ∀ (as ds : List Nat) (a0 d0 : Nat), as.length = ds.length →
+      (List.range' 1 (as.length - 1)).filterMap (segAt ms (a0 :: as) (d0 :: ds)) = midL ms a0 ds as := by
+  intro as
+  induction as with
+  | nil => intro ds a0 d0 h; cases ds <;> simp [midL]
+  | cons a1 as ih =>
+    intro ds a0 d0 h
+    cases ds with
+    | nil => simp at h
+    | cons d1 ds =>
+      cases as with
+      | nil =>
+        cases ds with
+        | nil => simp [midL]
+        | cons _ _ => simp at h
+      | cons a2 as' =>
+        cases ds with
+        | nil => simp at h
+        | cons d2 ds' =>
+          have hlen : (a2 :: as').length = (d2 :: ds').length := by simpa using h
+          have e : (a1 :: a2 :: as').length - 1 = ((a2 :: as').length - 1) + 1 := by simp
+          rw [e, List.range'_succ, List.filterMap_cons, segAt_one]
+          have hshift : List.range' (1 + 1) ((a2 :: as').length - 1) =
+              (List.range' 1 ((a2 :: as').length - 1)).map (· + 1) := range'_shift _ 1
+          have hrest : List.filterMap (segAt ms (a0 :: a1 :: a2 :: as') (d0 :: d1 :: d2 :: ds'))
+              (List.range' (1 + 1) ((a2 :: as').length - 1)) = midL ms a1 (d2 :: ds') (a2 :: as') := by
+            rw [hshift, List.filterMap_map, ← ih (d2 :: ds') a1 d1 hlen]
+            apply filterMap_congr'
+            intro i hi
+            have : 1 ≤ i := (List.mem_range'_1.mp hi).1
+            exact segAt_shift ms a0 d0 _ _ i this
+          rw [hrest]
+          simp only [midL]
+          cases hop ms a0 a1 d1 <;> rfl
+
+theorem hops_len (P : Problem S U α ρ) (ms : Array (PMotion S U α)) :
+    ∀ (ds as : List Nat) (a : Nat), Hops P ms a ds as → as.length = ds.length := by
+  intro ds
+  induction ds with
+  | nil => intro as a h; cases as with
+    | nil => rfl
+    | cons _ _ => exact absurd h (by simp [Hops])
+  | cons d ds ih => intro as a h; cases as with
+    | nil => exact absurd h (by simp [Hops])
+    | cons a' as =>
+      obtain ⟨_, _, _, _, _, h'⟩ := h
+      simp [ih as a' h']
+
+theorem getLast_lastOf : ∀ (as : List Nat) (a : Nat), (a :: as).getLast? = some (lastOf a as) := by
+  intro as
+  induction as with
+  | nil => intro a; rfl
+  | cons a' as ih => intro a; rw [List.getLast?_cons_cons]; exact ih a'
+
+/-- `assemble` with the per-index segment named (`assemble_eq` is `rfl`) -/
+def assemble' (P : Problem S U α ρ) (ms : Array (PMotion S U α)) (last : Nat) : Option (Path S U) :=
+  match ms[last]? with
+  | none => none
+  | some lm =>
+    match findDA P ms lm.stop ms.size last with
+    | none => none
+    | some (d0, a0) =>
+      match assembleLoop P ms ms.size a0 [d0] [a0] with
+      | none => none
+      | some (durs, mpath) =>
+        let n := mpath.length
+        match mpath.getLast? >>= (ms[·]?) with
+        | none => none
+        | some root =>
+          let mids := ((List.range n).filter fun i => 0 < i && i + 1 < n).reverse
+          let seg := mids.filterMap (segAt ms mpath durs)
+          let lastSeg := match ms[a0]? >>= (·.control) with
+            | some u => [(lm.stop, u, d0)]
+            | none => []
+          let all := seg ++ lastSeg
+          some { states := root.stop :: all.map (·.1), controls := all.map (·.2.1), steps := all.map (·.2.2) }
+
+theorem assemble_eq (P : Problem S U α ρ) (ms : Array (PMotion S U α)) (last : Nat) :
+    assemble P ms last = assemble' P ms last := rfl
+
+theorem path_ofSegs (s0 : S) (all : List (S × U × Nat)) :
+    ({ states := s0 :: all.map (·.1), controls := all.map (·.2.1), steps := all.map (·.2.2) } : Path S U) =
+      ofSegs s0 (toSegs all) := by
+  simp [ofSegs, toSegs, List.map_map, Function.comp_def]
+
+theorem assemble_spec (P : Problem S U α ρ) (starts : List S) (ms : Array (PMotion S U α)) (n : Nat)
+    (hI : MInv P starts ms n) (hclose : ∀ a b, P.close a b = true → a = b) (hrefl : ∀ a, P.close a a = true)
+    (hmin : 1 ≤ P.minSteps) (last : Nat) (p : Path S U) (h : assemble P ms last = some p) :
+    ∃ s0 sl lm, p = ofSegs s0 sl ∧ s0 ∈ starts ∧ P.valid s0 = true ∧ ReplayOK P.step P.valid s0 sl ∧
+      ms[last]? = some lm ∧ endState s0 sl = lm.stop := by
+  rw [assemble_eq] at h
+  unfold assemble' at h
+  cases hl : ms[last]? with
+  | none => rw [hl] at h; cases h
+  | some lm =>
+    rw [hl] at h
+    simp only at h
+    cases hf : findDA P ms lm.stop ms.size last with
+    | none => rw [hf] at h; cases h
+    | some da =>
+      obtain ⟨d0, a0⟩ := da
+      rw [hf] at h
+      simp only at h
+      have hres := findDA_sound P starts ms n hI hclose hrefl hmin lm.stop ms.size last d0 a0
+        (stop_onchain P starts ms n hI last lm hl) hf
+      cases hal : assembleLoop P ms ms.size a0 [d0] [a0] with
+      | none => rw [hal] at h; cases h
+      | some DM =>
+        obtain ⟨D, M⟩ := DM
+        rw [hal] at h
+        simp only at h
+        obtain ⟨ds, as, e1, e2, hops⟩ := assembleLoop_spec P starts ms n hI hclose hrefl hmin ms.size a0 _ _ D M hal
+        have e1 : D = d0 :: ds := by rw [e1]; rfl
+        have e2 : M = a0 :: as := by rw [e2]; rfl
+        subst e1 e2
+        obtain ⟨a0m, ha0, hr0⟩ := hres
+        obtain ⟨root, r1, r2, r3, r4, r5⟩ := hops_replay P starts ms n hI ds as a0 a0m ha0 hops
+        rw [getLast_lastOf] at h
+        simp only [Option.bind_eq_bind, Option.bind_some, r1] at h
+        have hlen := hops_len P ms ds as a0 hops
+        have hseg : List.filterMap (segAt ms (a0 :: as) (d0 :: ds))
+            (List.filter (fun i => decide (0 < i) && decide (i + 1 < (a0 :: as).length))
+              (List.range (a0 :: as).length)).reverse = (midL ms a0 ds as).reverse := by
+          rw [filter_mid, List.filterMap_reverse]
+          have : min (a0 :: as).length ((a0 :: as).length - 1) - 1 = as.length - 1 := by
+            simp only [List.length_cons]; omega
+          rw [this, midL_eq ms as ds a0 d0 hlen]
+        rw [hseg, ha0] at h
+        simp only [Option.bind_some] at h
+        rw [path_ofSegs] at h
+        have hp := (Option.some.inj h).symm
+        refine ⟨root.stop, _, lm, hp, r2, r3, ?_, rfl, ?_⟩
+        · rcases hr0 with ⟨c, _, _⟩ | ⟨u, c1, c2, c3⟩
+          · rw [c]; simp only [List.append_nil]; exact r4
+          · rw [c1]
+            simp only [toSegs, List.map_append, List.map_cons, List.map_nil]
+            rw [replayOK_append]
+            refine ⟨r4, ?_⟩
+            have r5' : endState root.stop (List.map (fun x => (x.2.1, x.2.2, x.1)) (midL ms a0 ds as).reverse) = a0m.start := r5
+            rw [r5']
+            exact ⟨c2.symm, c3, trivial⟩
+        · rcases hr0 with ⟨c, c2, c3⟩ | ⟨u, c1, c2, c3⟩
+          · rw [c]; simp only [List.append_nil]
+            rw [r5]
+            -- the chain top is a start motion: `lm.stop` is its state
+            rcases hI.seg a0 a0m ha0 with hr | ⟨u, s1, _⟩
+            · simp only [core] at hr; rw [hr.2.2.2.1, c3]
+            · have s1 : a0m.control = some u := s1
+              rw [c] at s1; cases s1
+          · rw [c1]
+            simp only [toSegs, List.map_append, List.map_cons, List.map_nil]
+            rw [endState_append]; rfl
+
+theorem solve_path (P : Problem S U α ρ) (g : ρ) (starts : List S) (draws : List (Draw S U)) (p : Path S U)
+    (h : (solve P g starts draws).path = some p) :
+    ∃ l, (solve P g starts draws).final.lastGoal = some l ∧
+      assemble P (solve P g starts draws).final.motions l = some p := by
+  unfold solve at h ⊢
+  simp only at h ⊢
+  split at h
+  · cases h
+  · rename_i hsz
+    rw [if_neg hsz]
+    split at h
+    · cases h
+    · rename_i l hl
+      simp only [hl]
+      exact ⟨l, rfl, h⟩
+
 end OmplModel.CPDST
